@@ -48,7 +48,17 @@ func VerifC14_Update() {
 		a.DependsOn = types.DependsOnConfig{"k": {Condition: types.ProcessConditionStarted}}
 		return a
 	}
-	old := vLoadedProject(types.Processes{"a": mkA(), "b": vBaseProc("run b"), "k": vBaseProc("keep")})
+	// d is disabled in both projects; its environment changes or not (a process that is not
+	// running is updated as well: the stored configuration is the new one, a later manual
+	// start uses it)
+	dChanged := verifChooseK("disabled.d.changed", 2) == 1
+	mkD := func(v string) types.ProcessConfig {
+		d := vBaseProc("run d")
+		d.Disabled = true
+		d.Environment = types.Environment{"D=" + v}
+		return d
+	}
+	old := vLoadedProject(types.Processes{"a": mkA(), "b": vBaseProc("run b"), "k": vBaseProc("keep"), "d": mkD("1")})
 	r := vRunner(old, false)
 	runDone := make(chan error, 1)
 	go func() { runDone <- r.Run() }()
@@ -81,7 +91,10 @@ func VerifC14_Update() {
 		a.ReadyLogLine = ""
 		a.Description = "described" // not launch-relevant: changes nothing that matters
 	}
-	procs := types.Processes{"a": a, "k": vBaseProc("keep")}
+	procs := types.Processes{"a": a, "k": vBaseProc("keep"), "d": mkD("1")}
+	if dChanged {
+		procs["d"] = mkD("2")
+	}
 	if !removeB {
 		procs["b"] = vBaseProc("run b")
 	}
@@ -111,6 +124,9 @@ func VerifC14_Update() {
 	}
 	if addC {
 		want["c"] = types.ProcessUpdateAdded
+	}
+	if dChanged {
+		want["d"] = types.ProcessUpdateUpdated
 	}
 	var got, exp []string
 	for k, v := range status {
@@ -166,6 +182,34 @@ func VerifC14_Update() {
 	}
 	if addC {
 		verifAssert("added.process.launched", vGet(w.starts, "c") == 1 && vGet(w.alive, "c") == 1)
+	}
+	// the disabled process: never launched by the update, stored configuration is the new one
+	verifAssert("disabled.process.not.launched", vGet(w.starts, "d") == 0)
+	if info, e := r.GetProcessInfo("d"); e != nil || info == nil {
+		verifFail("disabled.process.lost")
+	} else {
+		ref := np.Processes["d"]
+		verifAssert("disabled.process.has.new.configuration", info.Compare(&ref))
+	}
+	// applying the same project again changes nothing and reports nothing
+	if field != "ready_log_line" && field != "dependency.condition" {
+		startsAll := vGet(w.starts, "a") + vGet(w.starts, "b") + vGet(w.starts, "k") + vGet(w.starts, "c")
+		status2, err2 := r.UpdateProject(vLoadedProject(procs)) // REAL code
+		verifQuiesce()
+		verifAssert("second.identical.update.reports.nothing", err2 == nil && len(status2) == 0)
+		verifAssert("second.identical.update.relaunches.nothing", vGet(w.starts, "a")+vGet(w.starts, "b")+vGet(w.starts, "k")+vGet(w.starts, "c") == startsAll)
+	}
+	// a manual start of the disabled process uses its new configuration
+	if err := r.StartProcess("d"); err != nil {
+		verifFail("disabled.process.cannot.be.started")
+	} else {
+		verifQuiesce()
+		env := w.startEnv["d"]
+		wantEnv := "D=1"
+		if dChanged {
+			wantEnv = "D=2"
+		}
+		verifAssert("manual.start.uses.new.configuration", vGet(w.alive, "d") == 1 && len(env) > 0 && env[len(env)-1] == wantEnv)
 	}
 	_ = r.ShutDownProject()
 	<-runDone
